@@ -288,7 +288,9 @@ Proof. exact sections_atomic_l. Qed.
 
 (* every execution that respects the mutex and the discipline is equivalent (same events per thread, same
    order of all shared accesses and lock operations; only thread-local events of other threads moved) to
-   a legal disciplined execution in which every critical section is one contiguous block = one step *)
+   a legal disciplined execution in which every critical section is one contiguous block, which CORRESPONDS TO one step of the LTS (the correspondence
+   between a contiguous section and PoolModel.step is the hand-written transcription tied by the trace tie, not a
+   theorem; that ALocal events commute is part of the classification of events - independent audit 4, item 13) *)
 Theorem pool_reduction : forall tr, ok None tr = true ->
   contiguous None (normalise tr) = true /\
   ok None (normalise tr) = true /\
